@@ -88,11 +88,10 @@ def edit_family(run, replay):
     nhist, maxtips = (q, mq) if run.tier == "quick" else (t, mt)
     if replay:
         return edit_replay(run, replay)
-    try:
-        import models
-        models.edit_model(run, prop)
-    except ImportError:
-        pass
+    import models
+    models.edit_model(run, prop)
+    if prop == "C17":
+        models.nni_model(run)
     edit_random(run, prop, nhist, steps, maxtips)
     return vk.finish(run,
                      rule="model: every transition of the bounded TreeOps model; real code: every TLC-emitted case replayed plus "
